@@ -30,7 +30,9 @@ func ValidateResponseMetadata(resp *Packet) error {
 
 func ValidateResponseTimestamps(t0, t1, t2, t3 time.Time) error {
 	if t3.Sub(t0) < 0 {
-		panic("unexpected system clock behavior")
+		// client receive time before client transmit time, e.g. after a
+		// clock step or with a receive timestamp supplied by a forwarder
+		return errUnexpectedResponse
 	}
 	if t2.Sub(t1) < 0 {
 		return errUnexpectedResponse
